@@ -1,4 +1,5 @@
 import SnootyVerif.Proofs.Include
+import SnootyVerif.Proofs.IncludeSpec
 
 /-!
 # C06 — Include expansion transcludes exactly the included content, and terminates
@@ -53,6 +54,45 @@ theorem cut_error_only_reversed (ns : List T) (m : String) (h : cutList ns = .er
     have fl := cutEach_flags ns rs hrs
     have := finish_error rs m h
     rw [← fl.1, ← fl.2]; exact this
+
+/-- **Exactly the part between the markers.** For every included forest whose marker nodes contain
+no further markers (`atomicL`; comments and label targets do not), with at most one start and at
+most one end marker, not in reversed order: the cut succeeds, reports both found-flags exactly, and
+the content units it keeps (document order; a marker or childless node is one unit) are precisely
+`between` = from the start marker (or the beginning) through the end marker (or the end). -/
+theorem cut_spec (ns : List T) (ha : atomicL ns = true)
+    (hcS : (unitsL ns).countP pS ≤ 1) (hcE : (unitsL ns).countP pE ≤ 1)
+    (hrev : reversed (unitsL ns) = false) :
+    ∃ out, cutList ns = .ok (out, hasSL ns, hasEL ns) ∧ unitsL out = between (unitsL ns) := by
+  cases ns with
+  | nil => exact ⟨[], by simp [cutList, cutEach, finish_nil, hasSL, hasEL], by simp [unitsL, between, fromS, toE]⟩
+  | cons n ns =>
+    have h := cutEach_ok (n :: ns) ha hcS hcE hrev
+    obtain ⟨out, hfin, hunits, _⟩ := finish_spec (n :: ns) (by simp) h.2 ha hcS hcE hrev
+    refine ⟨out, ?_, hunits⟩
+    simp only [cutList, cutEach_map (n :: ns) h.1, hfin]
+
+/-- what `between` is, spelled out: units before the start marker and after the end marker are
+gone, everything from the one to the other is kept in order -/
+theorem between_explicit (pre mid post : List Tag) (s e : Tag)
+    (hpre : pre.any pS = false) (hs : pS s = true) (hsE : pE s = false) (hmid : mid.any pE = false) (he : pE e = true) :
+    between (pre ++ s :: (mid ++ e :: post)) = s :: (mid ++ [e]) := by
+  have hall : (pre ++ s :: (mid ++ e :: post)).any pS = true := by simp [List.any_append, hs]
+  have hd : (pre ++ s :: (mid ++ e :: post)).dropWhile (fun t => !pS t) = s :: (mid ++ e :: post) := by
+    rw [dropWhile_not_of_none hpre]; simp [List.dropWhile, hs]
+  unfold between
+  rw [fromS_some _ hall, hd, toE_some _ (by simp [List.any_append, he])]
+  simp only [takeThrough, hsE, Bool.false_eq_true, if_false]
+  rw [takeThrough_append_none hmid]
+  simp [takeThrough, he]
+
+/-- non-vacuity of `cut_spec`: the hypotheses hold for a nested example and the kept units are the
+start marker, the node between, and the end marker -/
+example : atomicL [.node ⟨0, false, false⟩ [], .node ⟨1, false, false⟩ [.node ⟨2, false, false⟩ [], .node ⟨3, true, false⟩ [.node ⟨9, false, false⟩ []]],
+      .node ⟨4, false, false⟩ [], .node ⟨5, false, true⟩ [], .node ⟨6, false, false⟩ []] = true
+    ∧ (between (unitsL [.node ⟨0, false, false⟩ [], .node ⟨1, false, false⟩ [.node ⟨2, false, false⟩ [], .node ⟨3, true, false⟩ [.node ⟨9, false, false⟩ []]],
+      .node ⟨4, false, false⟩ [], .node ⟨5, false, true⟩ [], .node ⟨6, false, false⟩ []])).map (·.id) = [3, 4, 5] := by
+  decide
 
 /-- Include expansion terminates on EVERY include graph (self-inclusion, mutual inclusion, any
 cycle): the fuel `room + 1` (number of files not yet on the stack) is never exhausted. -/
